@@ -60,7 +60,16 @@ DupLists == UNION {{Pr(With(BaseV(g, 5), "to", ListOf(<<I1, I2>>)), With(BaseV(g
                     Pr(With(BaseV(g, 5), "to", ListOf(<<I1, I1>>)), With(BaseV(g, 5), "to", ListOf(<<I1, I2>>))),
                     Pr(With(BaseV(g, 5), "tag", ListOf(<<Note1, Person1>>)), With(BaseV(g, 5), "tag", ListOf(<<Note1, Note1>>))),
                     Pr(With(BaseV(g, 5), "tag", ListOf(<<Note1, Note1>>)), With(BaseV(g, 5), "tag", ListOf(<<Note1, Person1>>)))} : g \in {"Object", "Activity"}}
-AllPairs == DupLists \cup CollToList \cup GenericMut \cup PortPairs \cup TypeLess \cup FullId \cup FullMut \cup Refl \cup OddRefl \cup QueryPairs \cup Mut \cup IdDiff \cup TypeDiff \cup NilFam
+\* untyped activities and actors (the struct says what they are), and a list member that keeps its id but changes inside
+UntypedVals == {Without(v, "type") : v \in {w \in FullVals : w.g \in {"Activity", "Actor"}}}
+UntypedMut == UNION {UNION {LET k == Kind(v.g, t) o == OtherVal(k, v.p[t]) IN
+                            IF o = v.p[t] THEN {} ELSE {Pr(v, With(v, t, o)), Pr(With(v, t, o), v)}
+                            : t \in (MutTerms(v.g) \ {"id", "type"}) \cap DOMAIN v.p} : v \in UntypedVals}
+Note1b == With(Note1, "name", Nlv(<<LR(NilTag, "another note")>>))       \* same id as Note1, other content
+MemberInside == UNION {UNION {{Pr(With(BaseV(g, 5), t, ListOf(<<I2, Note1>>)), With(BaseV(g, 5), t, ListOf(<<I2, Note1b>>))),
+                               Pr(With(BaseV(g, 5), t, ListOf(<<I2, Note1b>>)), With(BaseV(g, 5), t, ListOf(<<I2, Note1>>)))}
+                              : t \in {"tag", "to", "attachment"}} : g \in {"Object", "Activity"}}
+AllPairs == UntypedMut \cup MemberInside \cup DupLists \cup CollToList \cup GenericMut \cup PortPairs \cup TypeLess \cup FullId \cup FullMut \cup Refl \cup OddRefl \cup QueryPairs \cup Mut \cup IdDiff \cup TypeDiff \cup NilFam
 GenInit == x = NilItem /\ y = NilItem /\ res = FALSE /\ phase = "gen"
 GenNext == FALSE /\ UNCHANGED vars
 ASSUME ndJsonSerialize("c09_pairs.ndjson", SetToSeq(AllPairs))
